@@ -49,6 +49,7 @@ UNITS = {
     "c09": {"kind": "exe", "src": ["units/c09_reduce.cpp"]},
     "c05": {"kind": "exe", "src": ["units/c05_data_movement.cpp"]},
     "c05full": {"kind": "exe", "src": ["units/c05_data_movement.cpp"], "flags": ["-DVH_MASKS_FULL"]},
+    "c04": {"kind": "exe", "src": ["units/c04_memory.cpp"]},
     "c02": {"kind": "exe", "src": ["units/c02_fp_basic.cpp"], "aux": {"ref": {"src": "common/ref.cpp", "flags": ["-ffp-contract=off", "-fno-builtin"]}}, "link": ["ref"]},
 }
 ALL22 = "every architecture this CPU executes: 20 x86 (sse2 ... avx512vnni<avx512vbmi2>) + emulated<128>, emulated<256>"
@@ -221,6 +222,33 @@ PROPS = {
                 "(64 of 256 in quick); shuffle: pure-x, pure-y, zip_lo, zip_hi, select patterns, half/half, 6/16 random; run-time: random / all-equal / extreme index vectors, "
                 "one-hot / prefix / all-but-one / random / all 2^size masks; distinct cell = (op,type,arch,mask family or count or mask hash); " + ALL22,
         "assumptions": COMMON_ASSUME + ["swizzle/extract/insert indices < size, slide counts <= register bytes (documented preconditions)"],
+        "floor": {"quick": 10**5, "thorough": 10**6},
+    },
+    "C04": {
+        "technique": "runtime monitoring: PROT_NONE guard pages + canary bytes around every buffer (SIGSEGV = out-of-range access), bitwise lane/element comparison; "
+                     "thorough adds ASan+UBSan (gcc, clang) and valgrind memcheck on exact-size heap blocks",
+        "level_text": "Every load/store API form (member, tag, free-function, load_as/store_as, bool, complex, converting) of every element type is executed with the buffer "
+                      "flush against a PROT_NONE page on either side and at every admissible byte offset of a window straddling a page boundary; a fault, a changed canary byte "
+                      "outside [p,p+size) or a lane/element mismatch (memcmp, signalling-NaN payloads included) is a violation. gather/scatter tables sit flush against the guards "
+                      "with extreme, equal, permuted and random indices; unindexed elements must keep their canary. Exploration: the space of offsets is covered, data is sampled.",
+        "level_note": "Guard pages detect accesses that leave the two writable pages; over-reads that stay inside them are only visible to the ASan/valgrind runs (thorough tier) "
+                      "on the exact-size heap blocks. valgrind 3.19 cannot decode AVX-512, so those architectures rely on guard pages + ASan.",
+        "design_ref": "DESIGN.md section 6 C04, section 9",
+        "jobs": [
+            {"unit": "c04"},
+            {"unit": "c04", "variant": "ndebug", "tiers": ["thorough"]},
+            {"unit": "c04", "variant": "asan", "tiers": ["thorough"],
+             "env": {"ASAN_OPTIONS": "handle_segv=0:handle_sigbus=0:allow_user_segv_handler=1:detect_leaks=0", "UBSAN_OPTIONS": "print_stacktrace=0"}},
+            {"unit": "c04", "variant": "asan-clang", "tiers": ["thorough"],
+             "env": {"ASAN_OPTIONS": "handle_segv=0:handle_sigbus=0:allow_user_segv_handler=1:detect_leaks=0", "UBSAN_OPTIONS": "print_stacktrace=0"}},
+            {"unit": "c04", "tiers": ["thorough"], "wrap": ["valgrind", "-q", "--error-exitcode=0"], "tag": "valgrind",
+             "archs": ["sse2", "ssse3", "sse4_2", "avx", "avx2", "fma3_avx2", "emu128"], "args": ["--scale", "0.3"]},
+        ],
+        "rule": "each evaluation = one lane/element transferred by one load/store/gather/scatter/constructor call under the guard-page + canary monitor; placements: flush against "
+                "the upper / lower PROT_NONE page, 1..7 bytes from either, every byte offset (unaligned forms) or every multiple of the architecture alignment (aligned forms) in an "
+                "80-byte window straddling a page boundary, and an exact-size heap block; data: random bit patterns and signalling-NaN payloads; distinct cell = "
+                "(API form, type, arch, aligned?, offset in page) / (gather|scatter, table side, index pattern); " + ALL22,
+        "assumptions": COMMON_ASSUME + ["aligned forms only with pointers that are multiples of A::alignment(); scatter only with pairwise distinct indices"],
         "floor": {"quick": 10**5, "thorough": 10**6},
     },
 }
